@@ -932,7 +932,9 @@ fn c13_ref(reg: &PortableRegistry, id: u32) -> Result<String, String> {
         let unnamed = fs.iter().all(|f| f.name.is_none());
         if !named && !unnamed { return Err("mixed".into()); }
         let mut items = vec![];
-        for f in fs { let d = c13_ref(reg, f.ty.id)?; items.push(match &f.name { Some(n) => format!("{n}: {d}"), None => d }); }
+        for f in fs { let d = c13_ref(reg, f.ty.id)?;
+            let d = if f.type_name.as_ref().map(|s| s.contains("Box<")).unwrap_or(false) { format!("Box<{d}>") } else { d };
+            items.push(match &f.name { Some(n) => format!("{n}: {d}"), None => d }); }
         Ok(if named { format!("{{{}}}", items.join(",")) } else { format!("({})", items.join(",")) })
     };
     let name = t.path.segments.last().cloned().unwrap_or_default();
@@ -974,6 +976,13 @@ pub fn c13_text() -> i32 {
         /*25*/ ty("m::U4", vec![], composite(vec![u(0), u(1), u(2), u(3)])),
         /*26*/ ty("m::E5", vec![], variant(vec![("V", 0, vec![u(0), u(1), u(2), u(3), u(5)]), ("W", 1, vec![f("a", 0), f("b", 1), f("c", 2), f("d", 3)]), ("X", 2, vec![]), ("Y", 3, vec![u(4)]), ("Z", 4, vec![f("only", 6)])])),
         /*27*/ ty("", vec![], tuple(vec![0, 1, 2, 3, 0, 1, 2])),
+        /*28*/ ty("", vec![], compact(0)),
+        /*29*/ ty("bitvec::order::Lsb0", vec![], composite(vec![])),
+        /*30*/ ty("", vec![], bitseq(0, 29)),
+        /*31*/ ty("m::B", vec![], composite(vec![field(Some("b"), 0, Some("Box<u8>")), field(Some("c"), 1, Some("bool"))])),
+        /*32*/ ty("m::BU", vec![], composite(vec![field(None, 1, Some("Box<bool>")), field(None, 28, Some("Compact<u8>"))])),
+        /*33*/ ty("", vec![], arr(0, 1)),
+        /*34*/ ty("", vec![], seq(30)),
     ]);
     let mut tried = 0;
     let mut found = None;
